@@ -346,6 +346,7 @@ def sock_pipelines():
     P.append(('quiet gets then noop', 1048576, [f_set(b'a', b'1', op=0x11), f_key(0x09, b'a'), f_key(0x0d, b'zz'), f_key(0x0d, b'a'), noop]))
     P.append(('touch then noop', 1048576, [hdr(0x1c, key=1, extras=4, body=5) + b'\0\0\0\1k', noop]))
     P.append(('oversized then gets', 1024, [big, f_key(0, b'k'), noop]))
+    P.append(('stored item, then an oversized store of the same key, then gets', 1024, [f_set(b'k', b'small'), big, f_key(0, b'k'), noop]))
     big2 = hdr(0x01, key=1, extras=8, body=9000) + b'\0' * 8 + b'k' + b'v' * 8991
     P.append(('oversized (larger than the 4 KiB read buffer) then gets', 1024, [big2, f_key(0, b'k'), noop]))
     P.append(('counters', 1048576, [f_delta(5, b'c', 1, 10, 0), f_delta(0x15, b'c', 5), f_delta(6, b'c', 100), f_key(0, b'c'), noop]))
@@ -430,11 +431,25 @@ def gen_sock_faults(pid, f):
         lines = ['send ' + seg.hex(), 'sleep 80', 'conn', 'send ' + b''.join(observer).hex(), 'recv 300']
         w = check(lines, _observer_expect(frames[:n_ok], observer), '%d complete requests followed by a header with a corrupted magic byte, in one segment' % n_ok)
         if w: return w
-    # (1b) the connection is closed IMMEDIATELY after complete requests were sent (FIN queued right behind the data)
+    # (1b) the sending side is closed IMMEDIATELY after complete requests were sent (FIN queued right behind the data).
+    # The client half-closes and reads its responses to the end: closing a socket with unread responses would make the
+    # kernel RESET the connection, and after a reset only a prefix has to be executed.
     for c in bounds[1:]:
-        lines = ['send ' + stream[:c].hex(), 'conn', 'sleep 150', 'send ' + b''.join(observer).hex(), 'recv 300']
-        w = check(lines, _observer_expect(completed(c), observer), 'stream cut at byte %d (a frame boundary), connection closed immediately after the send' % c)
-        if w: return w
+        # on a FRESH connection, so that data and FIN are both queued before the server's task reads for the first time
+        lines = ['conn', 'send ' + stream[:c].hex(), 'shutdown_wr', 'recv 300', 'conn', 'sleep 100', 'send ' + b''.join(observer).hex(), 'recv 300']
+        def last_recv_ok(lines=lines, want=_observer_expect(completed(c), observer)):
+            import subprocess
+            r = subprocess.run([replaytool.REPLAY_BIN, 'sock'], input='\n'.join(lines) + '\n', capture_output=True, text=True, timeout=60)
+            recvs = [l[5:] for l in r.stdout.split('\n') if l.startswith('recv ')]
+            return (recvs[-1] if recvs else ''), want
+        gen_sock_faults.last_count += 1
+        got, want = last_recv_ok()
+        for k in (3, 6):
+            if got == want: break
+            got, want = last_recv_ok(_slow(lines, k))
+        if got != want:
+            return {'kind': 'sock-last', 'lines': lines, 'expect_last_recv': want, 'what': 'stream cut at byte %d (a frame boundary), sending side closed immediately after the send, responses read to the end: the observing connection receives %s..., required %s...' % (c, got[:64], want[:64]),
+                    'required': 'the observer sees exactly the store contents that the completely sent requests imply'}
     # (1c) abortive reset after complete requests had time to be executed
     for c in (bounds[2], bounds[-1]):
         lines = ['send ' + stream[:c].hex(), 'sleep 80', 'rst', 'sleep 80', 'send ' + b''.join(observer).hex(), 'recv 300']
